@@ -82,8 +82,12 @@ package imports
 //@ property C18: scanFiles, newImportReader, isIdent, (*importReader).syntaxError, (*importReader).readByte, (*importReader).peekByte, (*importReader).nextByte, (*importReader).readKeyword, (*importReader).readIdent, (*importReader).readString, (*importReader).readImport, ReadImports, ReadComments, ScanFiles
 //@ bounded C18: TestVerifBoundedReadImports
 
+// the errors the reader records: its own two sentinels, or whatever the underlying reader
+// reported (anything else, a wrapped sentinel say, would not be recognised by ReadImports)
+//@ pure func isReadErr(e error) bool
 //@ extern (*bufio.Reader).ReadByte(b) (c, err)
 //@   modifies gPos
+//@   ensures err != nil && err != io.EOF ==> isReadErr(err) && err != errSyntax
 //@   ensures err == nil ==> old(gPos) < gLen && c == gIn[old(gPos)] && gPos == old(gPos) + 1
 //@   ensures err != nil ==> gPos == old(gPos)
 //@   ensures err == io.EOF ==> gPos == gLen
@@ -100,16 +104,17 @@ package imports
 //@ func (*importReader).syntaxError
 //@   requires r != nil
 //@   modifies F_S_imports_importReader_err
-//@   ensures r.err != nil && (old(r.err) != nil ==> r.err == old(r.err))
+//@   ensures r.err != nil && (old(r.err) != nil ==> r.err == old(r.err)) && (old(r.err) == nil ==> r.err == errSyntax)
 
 //@ func (*importReader).readByte
-//@   requires r != nil && r.b != nil && bufIsB(r.buf, gIn, gPos, gBase) && (r.eof ==> gPos == gLen)
+//@   requires r != nil && r.b != nil && bufIsB(r.buf, gIn, gPos, gBase) && (r.err == nil || r.err == errSyntax || r.err == errNUL || isReadErr(r.err)) && (r.eof ==> gPos == gLen)
 //@   modifies F_S_imports_importReader_buf, F_S_imports_importReader_err, F_S_imports_importReader_eof, bytes, gPos
-//@   ensures bufIsB(r.buf, gIn, gPos, gBase) && len(r.buf) >= old(len(r.buf)) && len(r.buf) <= old(len(r.buf)) + 1
+//@   ensures bufIsB(r.buf, gIn, gPos, gBase) && (r.err == nil || r.err == errSyntax || r.err == errNUL || isReadErr(r.err)) && len(r.buf) >= old(len(r.buf)) && len(r.buf) <= old(len(r.buf)) + 1
 //@   ensures result != 0 ==> len(r.buf) >= 1 && r.buf[len(r.buf)-1] == result
 //@   ensures result == 0 ==> r.eof || r.err != nil
 //@   ensures (old(r.err) != nil ==> r.err == old(r.err)) && (old(r.eof) ==> r.eof)
 //@   ensures r.eof ==> gPos == gLen
+//@   ensures r.err == old(r.err) || r.err != errSyntax
 //@   ensures old(gPos) == gLen ==> gPos == gLen
 
 // representation invariant of the reader between calls
@@ -119,10 +124,10 @@ package imports
 // byte of the buffer; 0 is returned only at end of input or after an error; the
 // explicit "import reader looping" panic is unreachable (nerr stays below its limit).
 //@ func (*importReader).peekByte
-//@   requires r != nil && r.b != nil && bufIsB(r.buf, gIn, gPos, gBase) && peekOK(r.buf, r.peek) && (r.eof ==> gPos == gLen)
+//@   requires r != nil && r.b != nil && bufIsB(r.buf, gIn, gPos, gBase) && (r.err == nil || r.err == errSyntax || r.err == errNUL || isReadErr(r.err)) && peekOK(r.buf, r.peek) && (r.eof ==> gPos == gLen)
 //@   requires r.err != nil ==> r.nerr < 10000
 //@   modifies F_S_imports_importReader_buf, F_S_imports_importReader_err, F_S_imports_importReader_eof, F_S_imports_importReader_peek, F_S_imports_importReader_nerr, bytes, gPos
-//@   loop 1: invariant bufIsB(r.buf, gIn, gPos, gBase)
+//@   loop 1: invariant bufIsB(r.buf, gIn, gPos, gBase) && (r.err == nil || r.err == errSyntax || r.err == errNUL || isReadErr(r.err))
 //@   loop 1: invariant len(r.buf) >= old(len(r.buf))
 //@   loop 1: invariant (c != 0 ==> len(r.buf) >= 1 && r.buf[len(r.buf)-1] == c)
 //@   loop 1: invariant (c == 0 ==> r.eof || r.err != nil)
@@ -130,30 +135,30 @@ package imports
 //@   loop 1: invariant old(r.err) == nil
 //@   loop 1: invariant (old(r.eof) ==> r.eof)
 //@   loop 1: invariant (r.eof ==> gPos == gLen)
-//@   loop 2: invariant bufIsB(r.buf, gIn, gPos, gBase)
+//@   loop 2: invariant bufIsB(r.buf, gIn, gPos, gBase) && (r.err == nil || r.err == errSyntax || r.err == errNUL || isReadErr(r.err))
 //@   loop 2: invariant len(r.buf) >= old(len(r.buf))
 //@   loop 2: invariant (c == 0 ==> r.eof || r.err != nil)
 //@   loop 2: invariant r.nerr == old(r.nerr)
 //@   loop 2: invariant old(r.err) == nil
 //@   loop 2: invariant (old(r.eof) ==> r.eof)
 //@   loop 2: invariant (r.eof ==> gPos == gLen)
-//@   loop 3: invariant bufIsB(r.buf, gIn, gPos, gBase)
+//@   loop 3: invariant bufIsB(r.buf, gIn, gPos, gBase) && (r.err == nil || r.err == errSyntax || r.err == errNUL || isReadErr(r.err))
 //@   loop 3: invariant len(r.buf) >= old(len(r.buf))
 //@   loop 3: invariant r.nerr == old(r.nerr)
 //@   loop 3: invariant old(r.err) == nil
 //@   loop 3: invariant (old(r.eof) ==> r.eof)
 //@   loop 3: invariant (r.eof ==> gPos == gLen)
-//@   ensures bufIsB(r.buf, gIn, gPos, gBase) && peekOK(r.buf, r.peek) && len(r.buf) >= old(len(r.buf))
+//@   ensures bufIsB(r.buf, gIn, gPos, gBase) && (r.err == nil || r.err == errSyntax || r.err == errNUL || isReadErr(r.err)) && peekOK(r.buf, r.peek) && len(r.buf) >= old(len(r.buf))
 //@   ensures result == r.peek || (old(r.err) != nil && result == 0)
 //@   ensures r.err == nil && !r.eof ==> result != 0
 //@   ensures (old(r.err) != nil ==> r.err == old(r.err) && r.nerr == old(r.nerr) + 1 && result == 0) && (old(r.err) == nil ==> r.nerr == old(r.nerr)) && (old(r.eof) ==> r.eof)
 //@   ensures r.eof ==> gPos == gLen
 
 //@ func (*importReader).nextByte
-//@   requires r != nil && r.b != nil && bufIsB(r.buf, gIn, gPos, gBase) && peekOK(r.buf, r.peek) && (r.eof ==> gPos == gLen)
+//@   requires r != nil && r.b != nil && bufIsB(r.buf, gIn, gPos, gBase) && (r.err == nil || r.err == errSyntax || r.err == errNUL || isReadErr(r.err)) && peekOK(r.buf, r.peek) && (r.eof ==> gPos == gLen)
 //@   requires r.err != nil ==> r.nerr < 10000
 //@   modifies F_S_imports_importReader_buf, F_S_imports_importReader_err, F_S_imports_importReader_eof, F_S_imports_importReader_peek, F_S_imports_importReader_nerr, bytes, gPos
-//@   ensures bufIsB(r.buf, gIn, gPos, gBase) && r.peek == 0 && len(r.buf) >= old(len(r.buf))
+//@   ensures bufIsB(r.buf, gIn, gPos, gBase) && (r.err == nil || r.err == errSyntax || r.err == errNUL || isReadErr(r.err)) && r.peek == 0 && len(r.buf) >= old(len(r.buf))
 //@   ensures result != 0 ==> len(r.buf) >= 1 && r.buf[len(r.buf)-1] == result
 //@   ensures r.err == nil && !r.eof ==> result != 0
 //@   ensures (old(r.err) != nil ==> r.err == old(r.err) && r.nerr == old(r.nerr) + 1 && result == 0) && (old(r.err) == nil ==> r.nerr == old(r.nerr)) && (old(r.eof) ==> r.eof)
@@ -163,9 +168,9 @@ package imports
 // EOF are sticky, and they add at most K to nerr (and nothing while err == nil).
 
 //@ func (*importReader).readKeyword
-//@   requires r != nil && r.b != nil && bufIsB(r.buf, gIn, gPos, gBase) && peekOK(r.buf, r.peek) && (r.eof ==> gPos == gLen) && r.nerr + len(kw) + 2 <= 10000
+//@   requires r != nil && r.b != nil && bufIsB(r.buf, gIn, gPos, gBase) && (r.err == nil || r.err == errSyntax || r.err == errNUL || isReadErr(r.err)) && peekOK(r.buf, r.peek) && (r.eof ==> gPos == gLen) && r.nerr + len(kw) + 2 <= 10000
 //@   modifies F_S_imports_importReader_buf, F_S_imports_importReader_err, F_S_imports_importReader_eof, F_S_imports_importReader_peek, F_S_imports_importReader_nerr, bytes, gPos
-//@   loop 1: invariant bufIsB(r.buf, gIn, gPos, gBase)
+//@   loop 1: invariant bufIsB(r.buf, gIn, gPos, gBase) && (r.err == nil || r.err == errSyntax || r.err == errNUL || isReadErr(r.err))
 //@   loop 1: invariant len(r.buf) >= old(len(r.buf))
 //@   loop 1: invariant (old(r.err) != nil ==> r.err == old(r.err))
 //@   loop 1: invariant (old(r.eof) ==> r.eof)
@@ -174,7 +179,7 @@ package imports
 //@   loop 1: invariant 0 <= rangeint && rangeint < len(kw)
 //@   loop 1: invariant peekOK(r.buf, r.peek)
 //@   loop 1: invariant r.nerr <= old(r.nerr) + 1 + rangeint
-//@   ensures bufIsB(r.buf, gIn, gPos, gBase)
+//@   ensures bufIsB(r.buf, gIn, gPos, gBase) && (r.err == nil || r.err == errSyntax || r.err == errNUL || isReadErr(r.err))
 //@   ensures peekOK(r.buf, r.peek)
 //@   ensures len(r.buf) >= old(len(r.buf))
 //@   ensures r.nerr <= old(r.nerr) + len(kw) + 2
@@ -185,9 +190,9 @@ package imports
 //@   ensures old(r.err) == nil && r.err == nil && !r.eof ==> r.peek != 0 && !identByte(r.peek)
 
 //@ func (*importReader).readIdent
-//@   requires r != nil && r.b != nil && bufIsB(r.buf, gIn, gPos, gBase) && peekOK(r.buf, r.peek) && (r.eof ==> gPos == gLen) && r.nerr + 2 <= 10000
+//@   requires r != nil && r.b != nil && bufIsB(r.buf, gIn, gPos, gBase) && (r.err == nil || r.err == errSyntax || r.err == errNUL || isReadErr(r.err)) && peekOK(r.buf, r.peek) && (r.eof ==> gPos == gLen) && r.nerr + 2 <= 10000
 //@   modifies F_S_imports_importReader_buf, F_S_imports_importReader_err, F_S_imports_importReader_eof, F_S_imports_importReader_peek, F_S_imports_importReader_nerr, bytes, gPos
-//@   loop 1: invariant bufIsB(r.buf, gIn, gPos, gBase)
+//@   loop 1: invariant bufIsB(r.buf, gIn, gPos, gBase) && (r.err == nil || r.err == errSyntax || r.err == errNUL || isReadErr(r.err))
 //@   loop 1: invariant len(r.buf) >= old(len(r.buf))
 //@   loop 1: invariant (old(r.err) != nil ==> r.err == old(r.err))
 //@   loop 1: invariant (old(r.eof) ==> r.eof)
@@ -195,7 +200,7 @@ package imports
 //@   loop 1: invariant (r.err == nil ==> r.nerr == old(r.nerr))
 //@   loop 1: invariant peekOK(r.buf, r.peek)
 //@   loop 1: invariant r.nerr == old(r.nerr)
-//@   ensures bufIsB(r.buf, gIn, gPos, gBase)
+//@   ensures bufIsB(r.buf, gIn, gPos, gBase) && (r.err == nil || r.err == errSyntax || r.err == errNUL || isReadErr(r.err))
 //@   ensures peekOK(r.buf, r.peek)
 //@   ensures len(r.buf) >= old(len(r.buf))
 //@   ensures r.nerr <= old(r.nerr) + 2
@@ -207,9 +212,9 @@ package imports
 
 // readString: r.buf[start:] is always in bounds (start is the position of the opening quote).
 //@ func (*importReader).readString
-//@   requires r != nil && r.b != nil && bufIsB(r.buf, gIn, gPos, gBase) && peekOK(r.buf, r.peek) && (r.eof ==> gPos == gLen) && r.nerr + 3 <= 10000
+//@   requires r != nil && r.b != nil && bufIsB(r.buf, gIn, gPos, gBase) && (r.err == nil || r.err == errSyntax || r.err == errNUL || isReadErr(r.err)) && peekOK(r.buf, r.peek) && (r.eof ==> gPos == gLen) && r.nerr + 3 <= 10000
 //@   modifies F_S_imports_importReader_buf, F_S_imports_importReader_err, F_S_imports_importReader_eof, F_S_imports_importReader_peek, F_S_imports_importReader_nerr, bytes, gPos, C_Slice, H_Str
-//@   loop 1: invariant bufIsB(r.buf, gIn, gPos, gBase)
+//@   loop 1: invariant bufIsB(r.buf, gIn, gPos, gBase) && (r.err == nil || r.err == errSyntax || r.err == errNUL || isReadErr(r.err))
 //@   loop 1: invariant len(r.buf) >= old(len(r.buf))
 //@   loop 1: invariant (old(r.err) != nil ==> r.err == old(r.err))
 //@   loop 1: invariant (old(r.eof) ==> r.eof)
@@ -218,7 +223,7 @@ package imports
 //@   loop 1: invariant 0 <= start && start < len(r.buf)
 //@   loop 1: invariant r.peek == 0
 //@   loop 1: invariant r.nerr <= old(r.nerr) + 1
-//@   loop 2: invariant bufIsB(r.buf, gIn, gPos, gBase)
+//@   loop 2: invariant bufIsB(r.buf, gIn, gPos, gBase) && (r.err == nil || r.err == errSyntax || r.err == errNUL || isReadErr(r.err))
 //@   loop 2: invariant len(r.buf) >= old(len(r.buf))
 //@   loop 2: invariant (old(r.err) != nil ==> r.err == old(r.err))
 //@   loop 2: invariant (old(r.eof) ==> r.eof)
@@ -227,7 +232,7 @@ package imports
 //@   loop 2: invariant 0 <= start && start < len(r.buf)
 //@   loop 2: invariant r.peek == 0
 //@   loop 2: invariant r.nerr <= old(r.nerr) + 1
-//@   ensures bufIsB(r.buf, gIn, gPos, gBase)
+//@   ensures bufIsB(r.buf, gIn, gPos, gBase) && (r.err == nil || r.err == errSyntax || r.err == errNUL || isReadErr(r.err))
 //@   ensures peekOK(r.buf, r.peek)
 //@   ensures len(r.buf) >= old(len(r.buf))
 //@   ensures r.nerr <= old(r.nerr) + 3
@@ -237,9 +242,9 @@ package imports
 //@   ensures r.eof ==> gPos == gLen
 
 //@ func (*importReader).readImport
-//@   requires r != nil && r.b != nil && bufIsB(r.buf, gIn, gPos, gBase) && peekOK(r.buf, r.peek) && (r.eof ==> gPos == gLen) && r.nerr + 6 <= 10000
+//@   requires r != nil && r.b != nil && bufIsB(r.buf, gIn, gPos, gBase) && (r.err == nil || r.err == errSyntax || r.err == errNUL || isReadErr(r.err)) && peekOK(r.buf, r.peek) && (r.eof ==> gPos == gLen) && r.nerr + 6 <= 10000
 //@   modifies F_S_imports_importReader_buf, F_S_imports_importReader_err, F_S_imports_importReader_eof, F_S_imports_importReader_peek, F_S_imports_importReader_nerr, bytes, gPos, C_Slice, H_Str
-//@   ensures bufIsB(r.buf, gIn, gPos, gBase)
+//@   ensures bufIsB(r.buf, gIn, gPos, gBase) && (r.err == nil || r.err == errSyntax || r.err == errNUL || isReadErr(r.err))
 //@   ensures peekOK(r.buf, r.peek)
 //@   ensures len(r.buf) >= old(len(r.buf))
 //@   ensures r.nerr <= old(r.nerr) + 6
@@ -257,15 +262,16 @@ package imports
 //@   names (data, err)
 //@   requires gPos == 0 && gBase == 0 && gLen >= 0
 //@   modifies bytes, gPos, gBase, C_Slice, H_Str, F_S_imports_importReader_*
-//@   loop 1: invariant r != nil && r.b != nil && bufIsB(r.buf, gIn, gPos, gBase) && peekOK(r.buf, r.peek) && (r.eof ==> gPos == gLen)
+//@   loop 1: invariant r != nil && r.b != nil && bufIsB(r.buf, gIn, gPos, gBase) && (r.err == nil || r.err == errSyntax || r.err == errNUL || isReadErr(r.err)) && peekOK(r.buf, r.peek) && (r.eof ==> gPos == gLen)
 //@   loop 1: invariant r.nerr <= 60 && (r.err == nil ==> r.nerr == 0)
-//@   loop 2: invariant r != nil && r.b != nil && bufIsB(r.buf, gIn, gPos, gBase) && peekOK(r.buf, r.peek) && (r.eof ==> gPos == gLen)
+//@   loop 2: invariant r != nil && r.b != nil && bufIsB(r.buf, gIn, gPos, gBase) && (r.err == nil || r.err == errSyntax || r.err == errNUL || isReadErr(r.err)) && peekOK(r.buf, r.peek) && (r.eof ==> gPos == gLen)
 //@   loop 2: invariant r.nerr <= 40 && (r.err == nil ==> r.nerr == 0)
-//@   loop 3: invariant r != nil && r.b != nil && bufIsB(r.buf, gIn, gPos, gBase) && (r.eof ==> gPos == gLen)
+//@   loop 3: invariant r != nil && r.b != nil && bufIsB(r.buf, gIn, gPos, gBase) && (r.err == nil || r.err == errSyntax || r.err == errNUL || isReadErr(r.err)) && (r.eof ==> gPos == gLen) && r.err != errSyntax
 //@   ensures gBase == 0 || (gBase == 3 && gIn[0] == 239 && gIn[1] == 187 && gIn[2] == 191)
 //@   ensures forall K {at(data,K)} :: lo(data) <= K && K < hi(data) ==> at(data,K) == gIn[gBase + K - lo(data)]
 //@   ensures len(data) <= gPos - gBase
 //@   ensures err == nil ==> len(data) == gPos - gBase - 1 || len(data) == gLen - gBase
+//@   ensures (err == nil || err == errSyntax || err == errNUL || isReadErr(err)) && (!reportSyntaxError ==> err != errSyntax)
 
 //@ func ReadComments
 //@   names (data, err)
